@@ -47,7 +47,8 @@ PROPS = ["Nstd.Callback.Props"]
 DRIVER = "drv_callback"
 LEAN_TARGETS = PROPS + [DRIVER]
 SOURCES = ["callback.cpp", C.REPO / "src/Callback.cpp", C.REPO / "src/Memory.cpp"]
-NE, NG, NL, NS, MAXK, MAXACT, NV = 3, 9, 3, 2, 8, 8, 10
+NE, NG, NL, NS, MAXK, MAXACT, NV = 3, 10, 3, 2, 8, 8, 10
+REF_SIGNAL = 9   # its parameter type is `int&`
 
 
 # ---- actions ---------------------------------------------------------------------------------------
@@ -160,11 +161,16 @@ class Spec:
             self.active[key] = self.active.get(key, 0) + 1
             start = self.outer[key]
             snap = [c for c in self.conns if c[5] and c[0] == eo and c[1] == g and c[4] < start]
+            cell = v
             for c in snap:
                 if eo not in self.e_obj:
                     break
                 if c[5]:
-                    self.invoke(c[2], c[3], v)
+                    bump = self.invoke(c[2], c[3], cell)
+                    if g == REF_SIGNAL:
+                        # reference parameter: the next slot (and the caller) find what this slot left
+                        cell += bump
+                        self.log.append("=%d" % cell)
             if eo in self.e_obj:
                 self.active[key] -= 1
             self.log.append(">")
@@ -197,8 +203,11 @@ class Spec:
         self.log.append("%d.%d:%d" % (l, s, v))
         k = self.inv.get((l, s), 0)
         self.inv[(l, s)] = k + 1
-        for a in self.script_of(l, s, k):
-            self.act(a)
+        acts = self.script_of(l, s, k)
+        for a in acts:
+            if a[0] != "a":
+                self.act(a)
+        return sum(a[1] for a in acts if a[0] == "a")
 
     def line(self):
         live = [c for c in self.conns if c[5]]
@@ -279,7 +288,7 @@ def reference(hist):
 
 
 def parse_top_tok(t):
-    shapes = {"c": (NE, NG, NL, NS), "d": (NE, NG, NL, NS), "m": (NE, NG, NV), "L": (NL,), "E": (NE,), "n": (NL,), "w": (NE,)}
+    shapes = {"c": (NE, NG, NL, NS), "d": (NE, NG, NL, NS), "m": (NE, NG, NV), "L": (NL,), "E": (NE,), "n": (NL,), "w": (NE,), "a": (10,)}
     b = shapes.get(t[:1])
     if b is None or len(t) != 1 + len(b) or not t[1:].isdigit():
         return None
@@ -432,6 +441,8 @@ def gen_program(rng, size):
     connect/disconnect of the same connection and re-entrant emissions of the same signal likely"""
     # three of the nine signals (= arities) per program, so that unrelated draws still meet
     sigs = rng.sample(range(NG), 3)
+    if rng.random() < 0.25 and REF_SIGNAL not in sigs:
+        sigs[0] = REF_SIGNAL
     pool = [(rng.randrange(NE), rng.choice(sigs), rng.randrange(NL), rng.randrange(NS)) for _ in range(rng.choice([1, 2, 3, 5]))]
 
     def tup():
@@ -441,6 +452,8 @@ def gen_program(rng, size):
 
     def act(in_script):
         r = rng.random()
+        if in_script and rng.random() < 0.12:
+            return ("a", rng.randrange(1, 10))
         e, g, l, s = tup()
         if r < 0.34:
             return ("c", e, g, l, s)
@@ -604,7 +617,7 @@ class SpecHits(Spec):
                 self.hit("emit: the emitter has no SignalData for the signal")
             elif not any(c[5] and c[0] == eo and c[1] == g for c in self.conns):
                 self.hit("emit: the slot list is empty")
-            self.hit("emit: arity %d" % g)
+            self.hit("emit: arity %d" % g if g != REF_SIGNAL else "emit: one reference parameter")
             self.log.append("<%d.%d:%d" % (e, g, v))
             key = (eo, g)
             if self.active.get(key, 0) == 0:
@@ -615,13 +628,19 @@ class SpecHits(Spec):
             snap = [c for c in self.conns if c[5] and c[0] == eo and c[1] == g and c[4] < start]
             fr = [eo, g, snap, -1]
             self.stack.append(fr)
+            cell = v
             for i, c in enumerate(snap):
                 if eo not in self.e_obj:
                     self.hit("emission cut short: its emitter was destroyed")
                     break
                 fr[3] = i
                 if c[5]:
-                    self.invoke(c[2], c[3], v)
+                    bump = self.invoke(c[2], c[3], cell)
+                    if g == REF_SIGNAL:
+                        if bump:
+                            self.hit("reference parameter: a slot changed the caller's object")
+                        cell += bump
+                        self.log.append("=%d" % cell)
                 else:
                     self.hit("emission skips a connection of its snapshot that is gone")
             self.stack.pop()
@@ -744,8 +763,8 @@ def histories_for(ctx):
                 ex += [swap_signals(h, {0: 1}) for h in e] + [swap_signals(h, {0: 8}) for h in e]
                 desc.append(f"the same over signal 1 and over signal 8: 2 x {len(e)}")
             if U[:4] == (2, 2, 2, 2):
-                ex += [swap_signals(h, {0: 3, 1: 6}) for h in e]
-                desc.append(f"the same over signals 3,6: {len(e)}")
+                ex += [swap_signals(h, {0: 3, 1: 6}) for h in e] + [swap_signals(h, {0: 9, 1: 1}) for h in e]
+                desc.append(f"the same over signals 3,6 and over 9 (reference parameter),1: 2 x {len(e)}")
             if U[:4] == (3, 2, 3, 2):
                 ex += [swap_signals(h, {0: 5, 1: 2}) for h in e[::4]]
                 desc.append(f"every 4th of them over signals 5,2: {len(e[::4])}")
